@@ -235,6 +235,7 @@ def generator_stream(run, nprog):
                       "plugins": ["plug_find"], "find_variant": fl.VARIANT["v"]})
     results = pipeline.run_many(specs, workers=12 if nprog <= 12 else None)
     cut = exc = 0
+    n0 = len(run.violations)
     agg = {"frames": 0, "requests": 0, "exact_diffs": 0, "rejected": 0, "returned_types": 0, "calls_find": 0,
            "calls_irrelevant": 0}
     seen = set()
@@ -275,7 +276,7 @@ def generator_stream(run, nprog):
         run.violation({"kind": "broken-correspondence", "correspondence": "%s vs Model/Find (generator)" % d["request"]["op"],
                        "request": d["request"], "implementation": d["implementation"], "model": d["model"],
                        "program": {k: spec[k] for k in ("lang", "seed", "switches", "max_depth")}},
-                      signature=d["request"]["op"] + ":model-differs", no_input=agg["rejected"] == 0)
+                      signature=d["request"]["op"] + ":model-differs", no_input=len(run.violations) == n0)
     run.log("generator: %d programs (%d cut off, %d exceptions): %d _find_types calls, %d find_irrelevant_type calls, "
             "%d frames judged, %d requests, %d exact differ, %d answers rejected, %d returned types judged"
             % (nprog, cut, exc, agg["calls_find"], agg["calls_irrelevant"], agg["frames"], agg["requests"],
